@@ -84,8 +84,16 @@ class VCGen:
             if e.id not in st.v:
                 raise ExtractError(f"unknown name {e.id}")
             return st.v[e.id]
-        if isinstance(e, ast.Constant) and isinstance(e.value, int):
+        if isinstance(e, ast.Constant) and isinstance(e.value, int) and not isinstance(e.value, bool):
             return ("int", z3.IntVal(e.value))
+        if isinstance(e, ast.BinOp) and isinstance(e.op, (ast.Add, ast.Sub)):
+            l, r = self.expr(e.left, st), self.expr(e.right, st)
+            if l[0] == "int" and r[0] == "int":
+                return ("int", l[1] + r[1] if isinstance(e.op, ast.Add) else l[1] - r[1])
+        if isinstance(e, ast.UnaryOp) and isinstance(e.op, ast.USub):
+            v = self.expr(e.operand, st)
+            if v[0] == "int":
+                return ("int", -v[1])
         if isinstance(e, ast.Subscript) and isinstance(e.value, ast.Name) and st.v.get(e.value.id, ("",))[0] == "dict":
             k = self.expr(e.slice, st)
             _, has, val = st.v[e.value.id]
@@ -137,8 +145,14 @@ class VCGen:
 
     def stmt(self, s, st):
         S = self.spec
+        if hasattr(S, "custom_stmt"):
+            r = S.custom_stmt(self, st, s)   # function-specific statement forms (still read from the AST; see the sidecar)
+            if r is not None:
+                return r
         if isinstance(s, ast.Expr) and isinstance(s.value, ast.Constant):
             return [st]  # docstring
+        if isinstance(s, ast.Pass):
+            return [st]
         if isinstance(s, ast.Assign) and len(s.targets) == 1 and isinstance(s.targets[0], ast.Name):
             name, v = s.targets[0].id, s.value
             if isinstance(v, ast.Dict) and not v.keys:
@@ -256,7 +270,7 @@ class VCGen:
         if isinstance(s, ast.For):
             return self.loop(s, st, kind="for")
         if isinstance(s, ast.Return):
-            r = self.tuple_or_expr_kind(s.value, st)
+            r = self.spec.ret(self, st, s.value) if hasattr(self.spec, "ret") else self.tuple_or_expr_kind(s.value, st)
             st.v["$ret"] = r
             self.hook(self.ev("return"), st)
             for name, goal in self.spec.post(self, st):
